@@ -59,11 +59,16 @@ class Mod:
         self.extra_dev = list(kw.get("extra_dev", ()))
         self.extra_lref = list(kw.get("extra_lref", ()))
         self.faults = list(kw.get("faults", ()))           # model-only: (stage, LY_ERR) at which libyang refuses this source
+        self.reg_rev = kw.get("reg_rev", False)             # revision under which the source is SERVED (import callback, P step) when it
+                                                           # is not the revision the text declares; False = the declared one
         self.amend_node = dict(kw.get("amend_node", ()))   # target import name -> top-level node its augments / deviations descend
                                                            # into (default: container c); a submodule container is "cs_<sub>"
 
+    def served(self):
+        return self.rev if self.reg_rev is False else self.reg_rev
+
     def key(self):
-        return "%s@%s" % (self.name, self.rev or "-")
+        return "%s@%s" % (self.name, self.served() or "-")
 
     def has_data(self):
         return bool(self.data or self.extra_data or any(s.data for s in self.subs))
@@ -207,6 +212,8 @@ class Mod:
         for n, x in enumerate(aug): t += [x, self.amend_node.get(x, "c") if n < len(self.augments) else "c"]
         t.append("D%d" % len(dev))
         for n, x in enumerate(dev): t += [x, self.amend_node.get(x, "c") if n < len(self.deviations) else "c"]
+        if self.reg_rev is not False:
+            t += ["K1", self.rev or "-"]
         return " ".join(t)
 
     def top_nodes(self):
@@ -233,7 +240,7 @@ class History:
         self.steps.append(("M", m))
         return m
 
-    def parse(self, m, feats=None): self.steps.append(("P", [m.name, m.rev or "-", feats_tok(feats)]))
+    def parse(self, m, feats=None): self.steps.append(("P", [m.name, m.served() or "-", feats_tok(feats)]))
     def load(self, name, rev=None, feats=None): self.steps.append(("L", [name, rev or "-", feats_tok(feats)]))
     def impl(self, name, rev=None, feats=None): self.steps.append(("I", [name, rev or "-", feats_tok(feats)]))
     def compile(self): self.steps.append(("C", []))
@@ -260,7 +267,7 @@ class History:
         for f in os.listdir(d):
             os.unlink(os.path.join(d, f))
         for m in self.final_repo().values():
-            open(os.path.join(d, "%s%s.yang" % (m.name, ("@" + m.rev) if m.rev else "")), "w").write(m.text())
+            open(os.path.join(d, "%s%s.yang" % (m.name, ("@" + m.served()) if m.served() else "")), "w").write(m.text())
             for sub in m.subs:
                 open(os.path.join(d, "%s.yang" % sub.name), "w").write(m.sub_text(sub))
         self.wdir = d
@@ -274,7 +281,7 @@ class History:
             o.append("W %s" % self.wdir)
         for (k, a) in self.steps:
             if k == "M":
-                o.append("M %s %s %s %s" % (a.name, a.rev or "-", hexs(a.text()), a.desc()))
+                o.append("M %s %s %s %s" % (a.name, a.served() or "-", hexs(a.text()), a.desc()))
                 for sub in a.subs:
                     o.append("S %s - %s" % (sub.name, hexs(a.sub_text(sub))))
             else:
@@ -710,6 +717,71 @@ def gen_amend_history(rng):
     if rng.random() < 0.4:
         x = rng.choice(targets)
         h.impl(x.name, x.rev, None); kinds.append("impl")
+    if h.flags & EXPLICIT:
+        h.compile()
+    h.meta = {"kinds": kinds}
+    return h
+
+
+def gen_latest_window_history(rng):
+    """Directed family for the window of lys_parse_in() between the latest-revision decision and the insertion of the module into
+    unres->creating: a NEWER revision of a loaded module that is refused there — (a) namespace collision with another module of
+    the same revision, (b) the import callback serves a text that declares another revision than the one asked for
+    (lysp_load_module_check), (c) the module is served for an import without revision-date but is not newer —; the previous
+    latest revision must keep LYS_MOD_LATEST_REV / LYS_MOD_LATEST_SEARCHDIRS (snapshot field L, ly_ctx_get_module_latest through a
+    later dateless import)."""
+    oldrev = rng.choice([None, "2019-01-01", "2019-01-01"])
+    x1 = Mod("maa", oldrev, data=rng.random() < 0.8, feats=gen_feats(rng), typedef=rng.random() < 0.3)
+    h = History(EXPLICIT if rng.random() < 0.2 else 0)
+    h.add(x1)
+    user = Mod("mcc", None, imports=[("maa", None)], data=rng.random() < 0.5)
+    h.add(user)
+    kinds = ["latest-window"]
+    if rng.random() < 0.5:
+        h.parse(x1, gen_featarg(rng, x1))
+    else:
+        h.parse(user, None)                       # maa in the context as an import only
+    if h.flags & EXPLICIT and rng.random() < 0.6:
+        h.compile()
+    v = rng.random()
+    newrev = rng.choice(["2022-09-09", "2021-03-03"])
+    if v < 0.45:
+        # (a) two modules with one namespace and one revision
+        y = Mod("mbb", newrev, data=rng.random() < 0.5)
+        h.add(y); h.parse(y, None)
+        bad = copy.deepcopy(x1); bad.rev = newrev; bad.ns = y.ns
+        for sub in bad.subs: sub.name += "y"
+        h.add(bad)
+        if rng.random() < 0.6:
+            h.parse(bad, gen_featarg(rng, bad)); kinds.append("bad-parse:ns-clash")
+        else:
+            top = Mod("mtop", None, imports=[("maa", newrev if rng.random() < 0.5 else None)])
+            h.add(top); h.parse(top, None); kinds.append("bad-import:ns-clash")
+    elif v < 0.85:
+        # (b) served under one revision, declaring another (newer than what is loaded)
+        asked = "2020-05-05"
+        bad = copy.deepcopy(x1); bad.rev = newrev; bad.reg_rev = asked
+        h.add(bad)
+        r = rng.random()
+        if r < 0.6:
+            top = Mod("mtop", None, imports=[("maa", asked)])
+            h.add(top); h.parse(top, None); kinds.append("bad-import:wrong-revision")
+        elif r < 0.8:
+            h.load("maa", asked, None); kinds.append("bad-load:wrong-revision")
+        else:
+            h.parse(bad, None); kinds.append("parse")          # lys_parse itself has no check: the module loads as what it declares
+    else:
+        # (c) dateless import, the callback has nothing newer than what is loaded
+        top = Mod("mtop", None, imports=[("maa", None)], augments=["maa"] if x1.data and rng.random() < 0.5 else [])
+        h.add(top); h.parse(top, None); kinds.append("parse")
+    if h.flags & EXPLICIT:
+        h.compile(); kinds.append("compile")
+    # afterwards: who is the latest revision?
+    good = Mod("mgood", None, imports=[("maa", None)], augments=["maa"] if x1.data else [], feats=[Feat("g1")])
+    h.add(good)
+    h.parse(good, rng.choice([None, ["g1"]])); kinds.append("good")
+    if rng.random() < 0.4:
+        h.load("maa", None, None); kinds.append("load")
     if h.flags & EXPLICIT:
         h.compile()
     h.meta = {"kinds": kinds}
